@@ -909,7 +909,7 @@ func c18ModelForm(shown string) string {
 		}
 		return "real:" + shown
 	}
-	return hexOrDash([]byte(shown))
+	return hexOrDash([]byte("Literal " + shown))
 }
 
 func fileExists(p string) bool {
